@@ -34,10 +34,10 @@ CHECKS = {
             "size_hint is an unconstrained stub, so every obligation holds for every hint; capacity arguments derived from hints must satisfy the no-panic precondition of reserve/with_capacity.",
             "4 C07", "legal lower bound + current length <= 2^60-1 is an explicit assume (listed); "),
     "C08": ("posts of retain/retain_mut (wf, order), IterMut::next (slot handed out = cursor slot, prophecy of what is written), IterMut::drop (order), swap_remove_if / pop_if family (returned pair = slot as the predicate left it; kept otherwise; order restored).",
-            "4 C08", "predicate-call discipline of indexmap retain2 is assumed; Store::retain adapter assumed; "),
+            "4 C08", "retain_mut calls the predicate itself (once per entry handed out by the iter_mut2 stub); retain2 then only consumes recorded answers (rewrite R19, stub contract); Store::retain adapter assumed; "),
     "C09": ("cursor contracts of IterMut::next / next_back / len / size_hint: the slot handed out is the cursor slot and the cursor strictly advances, so slots are pairwise distinct; exact remaining length.",
             "4 C09", "raw-pointer reborrow (R6 __launder) trusted as value identity; "),
-    "C10": ("wf is a precondition wherever a priority is fetched for comparison or user code is called and an invariant of every sift loop; every function is safe from wf alone. Verus discharges these; the step to 'safe after a caught panic' is a stated meta-argument.",
+    "C10": ("wf is a precondition wherever a priority is fetched for comparison or user code is called and an invariant of every sift loop; every function is safe from wf alone. Verus discharges these, including wf at every call of a user closure (crash-point assertions) and the leak-safety posts of IterMut::new / iter_mut / drain; a generated audit obligation per function forbids handing a user-supplied callable or iterator to an IndexMap method (user code then only runs at call sites the verifier sees). The step to 'safe after a caught panic' is a stated meta-argument.",
             "4 C10", "no unwinding semantics in Verus (meta-argument); "),
     "C11": ("posts of push_increase / push_decrease for both queues: absent => inserted, strictly better => replaced and old returned, otherwise untouched as a whole and offered priority returned.",
             "4 C11", ""),
@@ -78,7 +78,7 @@ def main():
             "engine": "verus-contracts",
             "level_claimed": {"category": "proof", "text": text, "design_ref": "DESIGN.md " + ref},
             "level_note": note + COMMON_NOTE,
-            "technique": "contract-based deductive verification: Verus discharges requires/ensures/loop invariants spliced into the function bodies extracted from /repo on every run",
+            "technique": "contract-based deductive verification: Verus discharges requires/ensures/loop invariants spliced into the function bodies extracted from /repo on every run; after a failed obligation (never on a passing tree) a model-based random-history search on the real crate (harness/cex) looks for a concrete failing input to put into the replay file",
         })
     m = {
         "version": 1,
